@@ -93,6 +93,7 @@ type MultiCase struct {
 	Failed   []string `json:"failed"`
 	Loadable bool     `json:"loadable"`
 	Variant  *int     `json:"variant,omitempty"`
+	Spelling *int     `json:"spelling,omitempty"` // replay: the concrete naming of the original run
 }
 
 // Kind is what the instance state machine knows about the configuration.
@@ -340,13 +341,43 @@ func (w *World) Materialize(c Cfg, variant int) *configpb.LogConfig {
 	return m
 }
 
-// MaterializeMulti builds a LogMultiConfig.
-func (w *World) MaterializeMulti(m Multi, variant int) *configpb.LogMultiConfig {
+// spelling is one concrete naming of the abstract backend names / tree ids / prefixes of a
+// multi-config.  Every spelling preserves exactly the equalities the specification reads: distinct
+// abstract backend names stay distinct, (backend, tree id) pairs coincide iff the abstract ones do,
+// prefixes coincide iff the abstract ones do.  What varies is how the concrete strings relate to
+// each other: names that are prefixes of one another with ids chosen so that name||id coincide
+// ("be1"+"11" = "be11"+"1"), names and prefixes containing the "-" separator of the per-backend key.
+type spelling struct {
+	name   map[string]string        // abstract backend name -> concrete ("" stays "")
+	id     map[string]map[int]int64 // concrete id per (abstract backend name, abstract id); nil: default
+	prefix map[string]string        // abstract prefix -> concrete; nil: default
+}
+
+var idsHi = map[int]int64{1: 11, 2: 12}
+var idsLo = map[int]int64{1: 1, 2: 2}
+
+var spellings = []spelling{
+	{name: map[string]string{"A": "A", "B": "B"}},
+	{name: map[string]string{"A": "be1", "B": "be11"}, id: map[string]map[int]int64{"A": idsHi, "B": idsLo}},
+	{name: map[string]string{"A": "b", "B": "b1"}, id: map[string]map[int]int64{"A": idsHi, "B": idsLo}},
+	{name: map[string]string{"A": "be11", "B": "be1"}, id: map[string]map[int]int64{"A": idsLo, "B": idsHi}},
+	{name: map[string]string{"A": "be-1", "B": "be"}, id: map[string]map[int]int64{"A": {1: 5, 2: 15}, "B": {1: 5, 2: 1}},
+		prefix: map[string]string{"a": "1-x", "b": "x"}},
+	{name: map[string]string{"A": "log", "B": "log-1"}, id: map[string]map[int]int64{"A": {1: 12, 2: 2}, "B": {1: 2, 2: 12}},
+		prefix: map[string]string{"a": "log", "b": "log-1"}},
+}
+
+// NumSpellings is the number of concrete namings of a multi-config.
+func NumSpellings() int { return len(spellings) }
+
+// MaterializeMulti builds a LogMultiConfig in the given spelling.
+func (w *World) MaterializeMulti(m Multi, variant, sp int) *configpb.LogMultiConfig {
+	spl := spellings[sp%len(spellings)]
 	out := &configpb.LogMultiConfig{}
 	if m.BPresent {
 		out.Backends = &configpb.LogBackendSet{}
 		for _, b := range m.Backends {
-			be := &configpb.LogBackend{Name: b.Name, BackendSpec: b.Spec}
+			be := &configpb.LogBackend{Name: spl.name[b.Name], BackendSpec: b.Spec}
 			if b.Spec != "" {
 				be.BackendSpec = "dns:///" + b.Spec + ".example:8090"
 			}
@@ -356,7 +387,15 @@ func (w *World) MaterializeMulti(m Multi, variant int) *configpb.LogMultiConfig 
 	if m.LPresent {
 		out.LogConfigs = &configpb.LogConfigSet{}
 		for _, l := range m.Logs {
-			out.LogConfigs.Config = append(out.LogConfigs.Config, w.Materialize(l, variant))
+			lc := w.Materialize(l, variant)
+			lc.LogBackendName = spl.name[l.BackendName]
+			if ids := spl.id[l.BackendName]; ids != nil && l.LogID != 0 {
+				lc.LogId = ids[l.LogID]
+			}
+			if spl.prefix != nil && l.Prefix != "" {
+				lc.Prefix = spl.prefix[l.Prefix]
+			}
+			out.LogConfigs.Config = append(out.LogConfigs.Config, lc)
 		}
 	}
 	return out
